@@ -43,6 +43,21 @@ func (c *Ctx) validationHistories(pairs [][2]string) {
 			}
 		}
 	}
+	// candidates that differ only in case (a memo keyed on a case-folded pair confuses distance 0 and 1)
+	for _, w := range [][3]string{{"RED", "REX", "red"}, {"Name", "Nane", "name"}, {"userId", "userIt", "USERID"}, {"Ab", "Ac", "ab"}} {
+		se := "enum Colour { " + w[1] + " " + w[0] + " GREEN }\ntype Query { f(c: Colour): Int }"
+		hists = append(hists, []string{req(se, "{ f(c: \""+w[0]+"\") }"), req(se, "{ f(c: \""+w[2]+"\") }"), req(se, "{ f(c: "+w[2]+") }")})
+		sf := "type Query { t: T }\ntype T { " + w[1] + ": Int " + w[0] + ": Int other: Int }"
+		hists = append(hists, []string{req(sf, "{ t { "+w[2]+" } }"), req(sf, "{ t { "+strings.ToUpper(w[0])+" } }"), req(sf, "{ t { "+w[0]+"x } }")})
+	}
+	// one schema extends types of the prelude, the next one does not: what the first added must not be
+	// visible through the second (a parsed prelude kept across loads would carry it over)
+	for _, ext := range []string{"extend type __Type { origin: String }", "extend enum __TypeKind { EXTRA }", "directive @tag on SCALAR\nextend scalar String @tag", "extend type __Schema { zz: Int }"} {
+		s1 := ext + "\ntype Query { a: String }"
+		s2 := "type Query { a: String b: Int }"
+		d := "{ __type(name: \"Query\") { name origin kind } __schema { zz description } a }"
+		hists = append(hists, []string{req(s1, d), req(s2, d), req(s2, "{ a b }")})
+	}
 	targeted := len(hists)
 	for i := 0; i+6 <= len(pairs) && len(hists) < targeted+c.Pick(150, 1500); i += 6 {
 		var h []string
@@ -111,4 +126,36 @@ func describeValObs(o string) string {
 		}
 	}
 	return strings.Join(out, " | ")
+}
+
+// HistoryProbe: requests that share state through the process (a cached schema object, package-level
+// variables of the library) must give the same observation whatever the process did before. The
+// requests are run forwards in one fresh process and backwards in another; every request must
+// answer the same in both. `what` names the entry point in the signature.
+func (c *Ctx) HistoryProbe(what string, reqs []string, chunk int) {
+	n := 0
+	for lo := 0; lo < len(reqs); lo += chunk {
+		h := reqs[lo:min(lo+chunk, len(reqs))]
+		rev := make([]string, len(h))
+		for i := range h {
+			rev[len(h)-1-i] = h[i]
+		}
+		p1 := pool.New(c.Worker.Argv, 1, c.Worker.Timeout)
+		p1.Env = c.Worker.Env
+		o1 := p1.Map(h)
+		p2 := pool.New(c.Worker.Argv, 1, c.Worker.Timeout)
+		p2.Env = c.Worker.Env
+		o2 := p2.Map(rev)
+		for i := range h {
+			n++
+			a, b := o1[i], o2[len(h)-1-i]
+			if a != b && a != "SKIPPED" && b != "SKIPPED" {
+				c.Report("spec", "depends-on-history:"+what, fmt.Sprintf("%s request %d of a history of %d: after %d other requests it answers %s, after %d others (the same history backwards) %s; request: %s",
+					what, i, len(h), i, clip(a, 300), len(h)-1-i, clip(b, 300), clip(h[i], 200)),
+					map[string]any{"op": "history", "history": h, "position": i, "forwards": a, "backwards": b})
+				break
+			}
+		}
+	}
+	c.Ev.Count("history-probe-requests:"+what, n)
 }
